@@ -349,7 +349,7 @@ def opDV (args obs : List String) : P String := do
     let bs ← pList pInt bs
     if zeroDiv op bs then return "SKIP"
     match resultFmt .optimal op x y with
-    | none => pure (reply (isExc obs) (isExc obs) ["ERR"])
+    | none => pure (reply (isExc obs) false ["ERR"])      -- (the property demands a quotient for every pair of formats: a refusal never satisfies it)
     | some t =>
       match arithInto op (meth == "raw") t r o x y as bs with
       | none => throw "DV: shapes"
